@@ -59,7 +59,7 @@ def run_c01(ctx):
 
 def run_c06(ctx):
     ctx.build_harness()
-    out = ctx.tlc("ExprCheck", "expr_scope", workers=16, timeout=6000)["out"]
+    out = ctx.tlc("ExprCheck", "expr_scope", overrides={"Bound": 1 if ctx.tier == "thorough" else 0}, workers=16, timeout=6000)["out"]
     ctx.harness("expr-replay", "--property", "C06", "--cases", out, "--seed", ctx.seed,
                 "--layouts", 3 if ctx.tier == "thorough" else 2, "--trace", "scope.ndjson", "--out", "scope.json", timeout=7200)
     ctx.load_result("scope.json")
@@ -77,7 +77,8 @@ def run_c06(ctx):
                     "parameters colliding with a column and with the constant true) x 9 value shapes x 20 use sites "
                     "(operand of every operator class, sign, index base and index, in subject and list, call argument, "
                     "quoted / qualified / function-name occurrences that must not be substituted) and 10 expression "
-                    "positions incl. row counts and join conditions. Design level: writer model with scope vs lexical "
+                    "positions incl. row counts and join conditions (quick: the bare, negated and compared uses at every position, "
+                    "the others in where; thorough: every use at every position). Design level: writer model with scope vs lexical "
                     "scoping semantics on every row and placeholder valuation; conformance: the real SQL statement is read "
                     "and evaluated by TLC with the placeholders bound.",
             "compilations_validated_by_TLC": tr["cases"],
